@@ -368,6 +368,7 @@ func coordinate(r *ev.Run, scenarios []Scenario, budget time.Duration, finish fu
 	wg.Wait()
 	var execs, complete, cut, states, steps, raceExecs int64
 	nScen, capped, oneOutcome := 0, 0, 0
+	var cappedNames []string
 	minBound, unb := 1<<30, 0
 	var per []string
 	extra := map[string]int64{}
@@ -424,6 +425,13 @@ func coordinate(r *ev.Run, scenarios []Scenario, budget time.Duration, finish fu
 			steps += s.Steps
 			if s.Capped {
 				capped++
+				if len(cappedNames) < 25 {
+					race := ""
+					if res.Race {
+						race = " (race build)"
+					}
+					cappedNames = append(cappedNames, fmt.Sprintf("%s%s: stopped after %d executions", s.Name, race, s.Executions))
+				}
 			}
 		}
 		for _, v := range res.Violations {
@@ -459,6 +467,9 @@ func coordinate(r *ev.Run, scenarios []Scenario, budget time.Duration, finish fu
 	}
 	r.Set("scenarios_with_single_outcome", oneOutcome)
 	r.Set("scenarios_capped_by_deadline", capped)
+	if len(cappedNames) > 0 {
+		r.Set("capped_scenarios_first25", cappedNames)
+	}
 	if len(per) > 60 {
 		r.Set("per_scenario_first60", per[:60])
 	} else {
